@@ -138,22 +138,173 @@ theorem size_closure_lt {s e : Ty} (he : e ∈ closure s) (hne : e ≠ s) : size
     have h3 := sizeL_sups_lt s
     omega
 
+/-! ## universes -/
+
+theorem sups_sub_children (s : Ty) : ∀ x ∈ sups s, x ∈ children s := by
+  cases s <;> simp [sups, children] <;> intro x hx <;> simp [hx]
+
+theorem closedU_sups {U : Ty → Prop} (hU : ClosedU U) {s : Ty} (hs : U s) : ∀ x ∈ sups s, U x :=
+  fun x hx => hU s hs x (sups_sub_children s x hx)
+
+theorem closedU_wild {U : Ty → Prop} (hU : ClosedU U) {v : Nat} {bd : Ty} (h : U (wild v (some bd))) :
+    U bd := hU _ h bd (by simp [children])
+
+theorem closedU_tparam {U : Ty → Prop} (hU : ClosedU U) {nm : String} {v : Nat} {bd : Ty}
+    (h : U (tparam nm v (some bd))) : U bd := hU _ h bd (by simp [children])
+
+theorem closedU_args {U : Ty → Prop} (hU : ClosedU U) {nm con as ss} (h : U (param nm con as ss)) :
+    ∀ a ∈ as, U a := fun a ha => hU _ h a (by simp [children, ha])
+
+/-- a universe contains the supertype closure of its members -/
+theorem closedU_closure {U : Ty → Prop} (hU : ClosedU U) :
+    ∀ (s e : Ty), U s → e ∈ closure s → U e := by
+  intro s
+  have key : ∀ (s : Ty), (∀ x ∈ sups s, ∀ e, U x → e ∈ closure x → U e) →
+      ∀ e, U s → e ∈ closure s → U e := by
+    intro s ih e hs he
+    rw [closure_eq] at he
+    cases he with
+    | head => exact hs
+    | tail _ he =>
+      obtain ⟨u, hu, heu⟩ := mem_closureL.1 he
+      exact ih u hu e (closedU_sups hU hs u hu) heu
+  induction s using ind' with
+  | hb c nm nt p ss ih => exact key _ ih
+  | hs nm ss ih => exact key _ ih
+  | htp nm v bd ih => exact key _ (by intro x hx; cases hx)
+  | hw v bd ih => exact key _ (by intro x hx; cases hx)
+  | htc c nm ps ss ih1 ih2 => exact key _ ih2
+  | hp nm con as ss ih1 ih2 ih3 => exact key _ ih3
+  | hn => exact key _ (by intro x hx; cases hx)
+  | he c => exact key _ (by intro x hx; cases hx)
+
+theorem mem_subtermsL {ss : List Ty} {e : Ty} : e ∈ subtermsL ss ↔ ∃ u ∈ ss, e ∈ subterms u := by
+  induction ss with
+  | nil => simp [subtermsL]
+  | cons a as ih => simp [subtermsL, ih]
+
+theorem mem_subtermsO {bd : Option Ty} {e : Ty} : e ∈ subtermsO bd ↔ ∃ u, bd = some u ∧ e ∈ subterms u := by
+  cases bd <;> simp [subtermsO]
+
+theorem self_mem_subterms (s : Ty) : s ∈ subterms s := by
+  cases s <;> simp [subterms]
+
+theorem subterms_eq (s : Ty) : subterms s = s :: subtermsL (children s) := by
+  cases s with
+  | tparam nm v bd => cases bd <;> simp [subterms, children, subtermsL, subtermsO]
+  | wild v bd => cases bd <;> simp [subterms, children, subtermsL, subtermsO]
+  | tcon c nm ps ss =>
+    simp only [subterms, children]
+    congr 1
+    induction ps with
+    | nil => simp [subtermsL]
+    | cons a as ih => simp [subtermsL, ih]
+  | param nm con as ss =>
+    simp only [subterms, children, subtermsL]
+    congr 2
+    induction as with
+    | nil => simp [subtermsL]
+    | cons a as ih => simp [subtermsL, ih]
+  | _ => simp [subterms, children, subtermsL]
+
+/-- sub-terms of sub-terms are sub-terms -/
+theorem subterms_trans : ∀ (s x y : Ty), x ∈ subterms s → y ∈ subterms x → y ∈ subterms s := by
+  intro s
+  have key : ∀ (s : Ty), (∀ c ∈ children s, ∀ x y, x ∈ subterms c → y ∈ subterms x → y ∈ subterms c) →
+      ∀ x y, x ∈ subterms s → y ∈ subterms x → y ∈ subterms s := by
+    intro s ih x y hx hy
+    rw [subterms_eq s] at hx
+    cases hx with
+    | head => exact hy
+    | tail _ hx =>
+      obtain ⟨c, hc, hxc⟩ := mem_subtermsL.1 hx
+      rw [subterms_eq s]
+      exact List.mem_cons_of_mem _ (mem_subtermsL.2 ⟨c, hc, ih c hc x y hxc hy⟩)
+  induction s using ind' with
+  | hb c nm nt p ss ih => exact key _ (by simpa [children] using ih)
+  | hs nm ss ih => exact key _ (by simpa [children] using ih)
+  | htp nm v bd ih => exact key _ (by intro c hc; apply ih; simpa [children] using hc)
+  | hw v bd ih => exact key _ (by intro c hc; apply ih; simpa [children] using hc)
+  | htc c nm ps ss ih1 ih2 =>
+    refine key _ ?_
+    intro c hc
+    simp only [children, List.mem_append] at hc
+    rcases hc with hc | hc
+    · exact ih1 c hc
+    · exact ih2 c hc
+  | hp nm con as ss ih1 ih2 ih3 =>
+    refine key _ ?_
+    intro c hc
+    simp only [children, List.mem_cons, List.mem_append] at hc
+    rcases hc with rfl | hc | hc
+    · exact ih1
+    · exact ih2 c hc
+    · exact ih3 c hc
+  | hn => exact key _ (by intro c hc; simp [children] at hc)
+  | he c => exact key _ (by intro c hc; simp [children] at hc)
+
+theorem closedU_subterms (s : Ty) : ClosedU (fun x => x ∈ subterms s) := by
+  intro x hx y hy
+  apply subterms_trans s x y hx
+  rw [subterms_eq x]
+  exact List.mem_cons_of_mem _ (mem_subtermsL.2 ⟨y, hy, self_mem_subterms y⟩)
+
+/-- the least universe of a list of types is a universe and contains them -/
+theorem closedU_univ (ts : List Ty) : ClosedU (univ ts) := by
+  intro x hx y hy
+  obtain ⟨u, hu, hxu⟩ := mem_subtermsL.1 hx
+  exact mem_subtermsL.2 ⟨u, hu, closedU_subterms u x hxu y hy⟩
+
+theorem univ_mem {ts : List Ty} {t : Ty} (h : t ∈ ts) : univ ts t :=
+  mem_subtermsL.2 ⟨t, h, self_mem_subterms t⟩
+
+/-- the relation grows with the universe -/
+theorem SubT.mono {U V : Ty → Prop} (hUV : ∀ x, U x → V x) {s t : Ty} (h : SubT U s t) : SubT V s t := by
+  refine SubT.rec (U := U)
+    (motive_1 := fun s t _ => SubT V s t)
+    (motive_2 := fun tps as bs _ => ContL V tps as bs)
+    (motive_3 := fun tp a b _ => Cont V tp a b)
+    ?_ ?_ ?_ ?_ ?_ ?_ ?_ ?_ ?_ ?_ ?_ ?_ ?_ ?_ ?_ ?_ ?_ ?_ ?_ ?_ ?_ h
+  · intro s t h; exact SubT.refl h
+  · intro s t h; exact SubT.reflR h
+  · intro s u t hu _ _ ih1 ih2; exact SubT.trans (hUV u hu) ih1 ih2
+  · intro t; exact SubT.bot
+  · intro c nm p ss t; exact SubT.botBuiltin
+  · intro s u h; exact SubT.nominal h
+  · intro nm v bd; exact SubT.tvar
+  · intro sb ob _ ih; exact SubT.projOut ih
+  · intro nm con as ss nm' con' bs ss' hc _ ih; exact SubT.args hc ih
+  · intro tps as bs h; exact ContL.stop h
+  · intro tp tps a as b bs _ _ ih1 ih2; exact ContL.cons ih1 ih2
+  · intro tp a b h; exact Cont.same h
+  · intro tp a b h1 h2 h3 _ ih; exact Cont.declCo h1 h2 h3 ih
+  · intro tp a b h1 h2 h3 _ ih; exact Cont.declContra h1 h2 h3 ih
+  · intro tp a bd h1 _ ih; exact Cont.useOut h1 ih
+  · intro tp a bd h1 _ ih; exact Cont.useIn h1 ih
+  · intro tp bd bd' _ ih; exact Cont.outOut ih
+  · intro tp bd bd' _ ih; exact Cont.inIn ih
+  · intro tp a v h; exact Cont.star h
+  · intro tp bd b h1 h2 _ ih; exact Cont.projDeclCo h1 h2 ih
+  · intro tp bd b h1 h2 _ ih; exact Cont.projDeclContra h1 h2 ih
+
 /-! ## the closure consists of declarative supertypes -/
 
 /-- every element of `get_supertypes()` is the type itself or a declarative supertype -/
-theorem closure_sub : ∀ (s e : Ty), e ∈ closure s → e = s ∨ SubT s e := by
+theorem closure_sub {U : Ty → Prop} (hU : ClosedU U) :
+    ∀ (s e : Ty), U s → e ∈ closure s → e = s ∨ SubT U s e := by
   intro s
-  have key : ∀ (s : Ty), (∀ x ∈ sups s, ∀ e ∈ closure x, e = x ∨ SubT x e) →
-      ∀ e ∈ closure s, e = s ∨ SubT s e := by
-    intro s ih e he
+  have key : ∀ (s : Ty), (∀ x ∈ sups s, ∀ e, U x → e ∈ closure x → e = x ∨ SubT U x e) →
+      ∀ e, U s → e ∈ closure s → e = s ∨ SubT U s e := by
+    intro s ih e hs he
     rw [closure_eq] at he
     cases he with
     | head => exact Or.inl rfl
     | tail _ he =>
       obtain ⟨u, hu, heu⟩ := mem_closureL.1 he
-      rcases ih u hu e heu with h | h
+      have hUu := closedU_sups hU hs u hu
+      rcases ih u hu e hUu heu with h | h
       · subst h; exact Or.inr (SubT.nominal hu)
-      · exact Or.inr (SubT.trans (SubT.nominal hu) h)
+      · exact Or.inr (SubT.trans hUu (SubT.nominal hu) h)
   induction s using ind' with
   | hb c nm nt p ss ih => exact key _ ih
   | hs nm ss ih => exact key _ ih
